@@ -13,6 +13,7 @@
    crate's own decoder give back the length (all `as uK` casts are identities).
    All statements hold for every N (no bound on the length), the builder ones
    for every slice length (< 2^63). *)
+From EP Require Parse.ConstsAllOk.   (* every numeric `pub const` of the crate, regenerated from the source on every run, has its RFC / IANA value *)
 From EP Require Import Base.Bytes Limits.Spec Limits.Model Limits.Proofs.
 Local Open Scope N_scope.
 
